@@ -334,7 +334,7 @@ class GradOracle(Observer):
                 if not values_ok:
                     continue
                 ga = np.asarray(g)
-                if ga.shape != e[1].shape or not close(ga, e[1], w.exact, scale):
+                if ga.shape != e[1].shape or not close(ga, e[1], w.exact, scale, dtype=w.tol_dtype):
                     w.violation(
                         self.prop,
                         f"{self.name}.wrong_grad",
@@ -432,3 +432,90 @@ class ValueOracle(Observer):
                     ):
                         return
         w.probe("c04.checked_events")
+
+
+class TapeValueOracle(Observer):
+    """every caller-held float tensor holds the value of its current version in the equivalent
+    functional program (M2) - after every statement."""
+
+    def __init__(self, prop):
+        self.prop = prop
+
+    def after(self, w, ev, out):
+        if ev["k"] not in ("op", "inplace", "setshape", "leaf") or out.status not in ("ok",):
+            return
+        if w.grad_poisoned:
+            return
+        tp = w.tape
+        for h, t in w.T.items():
+            i = w.info[h]
+            n = tp.nodes[i.nid]
+            if n.opaque or not is_float(t.dtype):
+                continue
+            e = n.val
+            d = t.data
+            if d.shape != e.shape:
+                if w.violation(self.prop, f"{self.prop}.value_shape", f"step {w.nstep}: handle {h} has shape {d.shape}, functional program gives {e.shape}", tag=f"{self.prop}.value_shape/{ev['k']}:{ev.get('form') or ev.get('op') or ''}"):
+                    return
+                continue
+            sc = float(np.max(np.abs(e))) if e.size and np.all(np.isfinite(e)) else 1.0
+            if not close(d, e, w.exact, max(sc, 1.0), dtype=w.tol_dtype):
+                if w.violation(
+                    self.prop,
+                    f"{self.prop}.value",
+                    f"step {w.nstep} ({ev['k']}:{ev.get('form') or ev.get('op') or ''}): handle {h} holds {d.tolist()!r:.160}; the functional program gives {e.tolist()!r:.160}",
+                    tag=f"{self.prop}.value/{ev['k']}:{ev.get('form') or ev.get('op') or ''}",
+                ):
+                    return
+
+
+class CrossScheduleOracle(Observer):
+    """C01: the same dataflow DAG executed under several schedules yields the same gradients for
+    every corresponding tensor (bit-exact when the run is certified exact) and the same values."""
+
+    def attach(self, w):
+        self.ref = None  # schedule 0: logical handle -> (grad array or None, data)
+
+    def after(self, w, ev, out):
+        if ev["k"] != "sched_end":
+            return
+        rec = w.last_backward
+        if rec is None or rec.get("status") != "ok":
+            return
+        off = ev["off"]
+        cur = {}
+        for h, t in w.T.items():
+            if off <= h < off + 900:
+                g = t.grad
+                cur[h - off] = (None if g is None else np.array(g, copy=True), np.array(t.data, copy=True), w.info[h].const)
+        if self.ref is None:
+            self.ref = (cur, bool(rec.get("nondiff")))
+            return
+        ref, ref_nd = self.ref
+        nd = ref_nd or bool(rec.get("nondiff"))
+        for lh, (g, d, c) in cur.items():
+            if lh not in ref:
+                continue
+            g0, d0, c0 = ref[lh]
+            if not _bytes_equal(d, d0):
+                # commutative swaps are value-exact for + * max min; sequences may re-associate
+                if not close(d, d0.astype(np.float64), False, float(np.max(np.abs(d0))) if d0.size else 1.0, dtype=w.tol_dtype):
+                    if w.violation("C01", "C01.schedule_value", f"step {w.nstep}: logical tensor {lh} has different values under schedule {ev['j']}", tag="C01.schedule_value"):
+                        return
+            if (g is None) != (g0 is None):
+                if w.violation("C01", "C01.schedule_grad_presence", f"step {w.nstep}: logical tensor {lh}: grad is {'None' if g is None else 'set'} under schedule {ev['j']} but {'None' if g0 is None else 'set'} under schedule 0", tag="C01.schedule_grad_presence"):
+                    return
+                continue
+            if g is None or nd:
+                continue
+            sc = max(1.0, float(np.max(np.abs(g0))) if g0.size else 1.0, rec.get("scale", 1.0))
+            ok = np.array_equal(g, g0) if (w.exact and g.dtype == np.float64) else close(g, g0.astype(np.float64), False, sc, dtype=w.tol_dtype)
+            if not ok:
+                if w.violation(
+                    "C01",
+                    "C01.schedule_grad",
+                    f"step {w.nstep}: logical tensor {lh}: gradient {g.tolist()!r:.120} under schedule {ev['j']} differs from {g0.tolist()!r:.120} under schedule 0",
+                    tag="C01.schedule_grad",
+                ):
+                    return
+        w.probe("c01.cross_schedule_ok")
